@@ -24,6 +24,7 @@ impl NodeState {
 }
 
 //@include prelude/forward_spec.rs
+//@include prelude/sem_spec.rs
 
 // rule I17: `T.children(I).filter(|child| child.target_value.state.is_feasible() / is_infeasible()).[map(|x| x.edge()).]collect_vec()` (verified helper):
 // the edges to the existing children whose cached state is feasible (want) / infeasible (!want), in ascending label order
@@ -92,7 +93,24 @@ impl<const K: usize> AffTree<K> {
                 && (r is None <==> old(self).tree.root == Some(parent_idx))
                 && (r matches Some(nd) ==> nd.value == old(self).a()[parent_idx].value && nd.parent == old(self).a()[parent_idx].parent),
         // (the two clauses above as one predicate, for callers)
-        forward_post(old(self).a(), final(self).a(), parent_idx, old(self).tree.root == Some(parent_idx)),
+        forward_post(old(self).a(), final(self).a(), parent_idx, old(self).tree.root),
+        // C03 / C06 (meaning): the denoted function changes at most for inputs whose evaluation reaches the decision and leaves it through a child
+        // that is not the one cached feasible - i.e. through a branch cached infeasible; every other input keeps its value (and its undefinedness)
+        old(self).tree.root matches Some(rt) ==> forall|h0: Map<usize, nat>, h1: Map<usize, nat>, x: V| #![trigger tree_fn(old(self).a(), h0, rt, x), tree_fn(final(self).a(), h1, rt, x)]
+            ranked_down(old(self).a(), h0) && ranked_down(final(self).a(), h1) && fwd_unaffected(old(self).a(), h0, rt, parent_idx, x)
+                ==> tree_fn(final(self).a(), h1, rt, x) == tree_fn(old(self).a(), h0, rt, x),
+//@hint start
+        proof {
+            if self.tree.root is Some {
+                let rt = self.tree.root.unwrap();
+                let a0 = self.a();
+                assert forall|a2: AArena<K>, h0: Map<usize, nat>, h1: Map<usize, nat>, x: V| #![trigger tree_fn(a0, h0, rt, x), tree_fn(a2, h1, rt, x)]
+                    wf_at(a2, Some(rt)) && forward_post(a0, a2, parent_idx, Some(rt)) && ranked_down(a0, h0) && ranked_down(a2, h1) && fwd_unaffected(a0, h0, rt, parent_idx, x)
+                    implies tree_fn(a2, h1, rt, x) == tree_fn(a0, h0, rt, x) by {
+                    lemma_fwd_sem(a0, a2, h0, h1, rt, parent_idx, x);
+                }
+            }
+        }
 //@loop 1
             invariant
                 0 <= __i <= infeasible_children@.len(), self.tree.wf(), old(self).tree.wf(), old(self).a().dom().len() <= i32::MAX, self.tree.root == old(self).tree.root, self.in_dim == old(self).in_dim,
